@@ -9,6 +9,7 @@ import JV.Drv.Number
 import JV.Drv.JsonText
 import JV.Drv.Source
 import JV.Drv.Binary
+import JV.Drv.Dom
 open JV Drv
 
 def dispatch (line : String) : String :=
@@ -21,6 +22,7 @@ def dispatch (line : String) : String :=
   | "jt" :: rest => jsonTextLine rest
   | "src" :: rest => sourceLine rest
   | "bin" :: rest => binaryLine rest
+  | "dom" :: rest => domLine rest
   | [] => ""
   | _ => "bad-op"
 
